@@ -23,6 +23,14 @@ package execext
 //@   ensures result == nil ==> interpErr == nil                                                       [C03,C04,C13]
 //@   ensures interpErr != nil ==> result == interpErr                                                 [C03,C04]
 
+// Programs are started, awaited and (after an interrupt) reaped by the interpreter's own handler, which returns only
+// when the program has exited: a command has "completely finished" when RunCommand returns - nothing it started is
+// still running when the next command, or the caller of the task, goes on
+//@ ghost var stdHandler ref scratch
+//@ func execHandler
+//@   site interp.DefaultExecHandler#0 ghost stdHandler := result
+//@   ensures result == stdHandler                                                                     [C02,C03,C17]
+
 // ---- C16: expanding a task dir or include location never indexes an empty word list -----------------------
 //@ func ExpandLiteral
 //@   sweep                                                                                                     [C16]
